@@ -3881,6 +3881,23 @@ def lib_opaque_order(tag):
     """numpy.sort / numpy.argsort of a symbolic vector: a reordering decided by the vector's own values"""
     def f(ev, a, k, n, mod):
         x = a[0]
+        if isinstance(x, ArrV) and tag == "SORT" and x.shape:
+            # sorted along one constant axis: position k of a lane holds the k-th smallest of that lane's entries - whichever
+            # entry that is depends on the data (an opaque atom per position), not on where it was stored
+            axis = _const_int(k.get("axis", a[1] if len(a) > 1 else sp.Integer(-1)))
+            nd = x.batch + len(x.shape)
+            axis = axis % nd
+            ca = axis - (0 if x.batch_last else x.batch)
+            if not 0 <= ca < len(x.shape):
+                raise ev.err("numpy.sort along a grid axis of a small array is not modelled", n, mod)
+            out = ArrV(x.batch, x.shape, batch_last=x.batch_last)
+            for key in itertools.product(*[range(d) for d in x.shape]):
+                lane = [x.get(key[:ca] + (j,) + key[ca + 1:]) for j in range(x.shape[ca])]
+                if len({sp.srepr(as_sym(c)) for c in lane}) == 1:
+                    out.cells[key] = lane[0]
+                else:
+                    out.cells[key] = sp.Function("KTH_SMALLEST")(sp.Integer(key[ca]), *[as_sym(c) for c in lane])
+            return out
         if isinstance(x, ArrV) or not is_sym(as_sym(x)):
             raise ev.err(f"numpy.{tag.lower()} of a small array is not modelled", n, mod)
         return sp.Function(tag)(as_sym(x))
